@@ -213,6 +213,27 @@ fn c16_relative_join_over_255() -> bool {
     r.is_none()
 }
 
+/// C13: writing a zone and reading the text back gives an equal zone, also for a label that is the single character `@`.
+fn c13_label_at_sign_round_trip() -> bool {
+    let apex = dn("example.");
+    let mut z = Zone::new(apex.clone(), Some(soa(1)));
+    let owner = dn("@.example.");
+    z.insert(&owner, a_data("10.0.0.7"), 300);
+    let text = z.serialise();
+    let back = Zone::deserialise(&text);
+    println!("input: authoritative zone example. holding `\\@.example. 300 IN A 10.0.0.7` (first label: the single character @)");
+    println!("written as:\n{text}");
+    println!("required: reading the text back gives a zone that holds the same record under the same owner");
+    match &back {
+        Ok(b) => {
+            let owners: Vec<String> = b.all_records().keys().map(|k| k.to_dotted_string()).collect();
+            println!("observed: owners after reading back: {owners:?}; equal zones: {}", *b == z);
+        }
+        Err(e) => println!("observed: Err({e:?})"),
+    }
+    matches!(back, Ok(b) if b == z)
+}
+
 /// C14: `#` starts a comment wherever it appears: a name directly followed by a comment is still mapped.
 fn c14_name_directly_followed_by_comment() -> bool {
     use dns_types::hosts::types::Hosts;
@@ -308,6 +329,7 @@ fn main() {
         "c03_minimal_records_accepted" => c03_minimal_records_accepted(),
         "c16_relative_join_over_255" => c16_relative_join_over_255(),
         "c14_name_directly_followed_by_comment" => c14_name_directly_followed_by_comment(),
+        "c13_label_at_sign_round_trip" => c13_label_at_sign_round_trip(),
         "c12_wildcard_only_node_merge" => c12_wildcard_only_node_merge(),
         _ => {
             eprintln!("unknown witness `{w}`");
